@@ -363,6 +363,7 @@ def main():
         "hand-written model lean/Cog/Sem/{GoVal,GoCodec}.lean of encoding/json on the generated Go types and of the two custom union (un)marshallers, tied by the c01-rows stream: real pipeline -> real `go build` -> real decode/encode of every document",
         "source side: documents are drawn from the Src grammar and checked against the schema language's own validator (santhosh-tekuri/jsonschema, kin-openapi, cuelang) before use; encoding/json, the Go toolchain and those validators are trusted",
         "numbers restricted to integers and multiples of 0.25; date-time strings treated as opaque canonical RFC 3339 text",
+        "CUE front-end model (lean/Cog/Front/Cue*.lean): CUE's own parser/evaluator (text -> cue.Value) and the view encoder harness/c01_front_cue.go (same cue API calls as internal/simplecue; refuses what the view cannot express) are trusted; PROVED on FragCue: cueFront = ok S ∧ strict cueValid ⇒ srcDen S (FragCue contains the per-schema shape check `agree`); tied: model IR = real simplecue.GenerateAST IR, cueValid = CUE's Unify+Validate(Concrete), instances on the real IR",
     ]
     hb, err = build_go("verifharness", "harness", files=HARNESS_BASE + ["lab_*.go", "src_*.go", "c01.go", "c01_src.go", "c01_front.go", "c01_front_oa.go", "c01_front_cue.go"], tag="c01")
     c.oblige("harness builds against /repo working tree", hb is not None, err)
